@@ -83,6 +83,7 @@ def run(ctx):
     ctx.rule("R14-deref", "direct dereference of a parameter is edge-dominated by is_null(param) == false")
     ctx.rule("R14-own", "who-may-call Box::from_raw / Box::into_raw")
     ctx.rule("R14-internal", "who-may-dereference stored raw pointers")
+    ctx.rule("R16-mustcall", "must-pass-through: in an extern \"C\" wrapper that calls &mut AutoCommit methods, no to_result(..) is reachable from entry once the blocks of those calls are removed (the wrapped call is unconditional on every success path)")
     ctx.rule("R14-cache", "Option::insert / replace / take on an interior cache field of &self is edge-dominated by the None arm of a discriminant test of the same field")
     f = ctx.facts()
     ext = sorted(p for p, r in f.fns.items() if r["ckey"][0] == CRATE and (r.get("abi") or "").startswith("C"))
@@ -204,3 +205,27 @@ def run(ctx):
             ctx.ob("R14-cache", k, ok, t["sp"], "cache %s filled only while empty" % sorted(flds) if ok else
                    "the cache %s is replaced on every call: the buffer behind a span returned earlier is freed while its AMresult is alive" % sorted(flds))
     ctx.floor("stores into interior view caches", n_cache, 5)
+    # ---------------- R16-mustcall: a wrapper performs the Rust call on every path that produces a result
+    n_wr = 0
+    for p, r in sorted(f.fns.items()):
+        if r["ckey"][0] != "automerge_core" or "{closure" in p or not (r.get("abi") or "").startswith("C"):
+            continue
+        b = cfg.body(r)
+        muts = {}
+        for bi, t in b.calls():
+            c = norm_fn(t.get("res") or t.get("fn")) or ""
+            if "automerge::autocommit::AutoCommit" in c and t.get("argtys") and t["argtys"][0].startswith("&mut"):
+                muts.setdefault(bi, c)
+        if not muts:
+            continue
+        rets = [(bi, t) for bi, t in b.calls() if (norm_fn(t.get("fn")) or "").endswith("result::to_result")]
+        if not rets:
+            continue
+        n_wr += 1
+        ctx.analysed_fns.add(p)
+        reach = b.reachable(start=0, removed_blocks=set(muts))
+        bad = [t["sp"] for bi, t in rets if bi in reach]
+        ctx.ob("R16-mustcall", "%s|%s on every result path" % (norm_fn(p).split("::")[-1], "/".join(sorted({c.split("::")[-1] for c in muts.values()}))), not bad, r["sp"],
+               "every to_result is behind the wrapped call" if not bad else
+               "a result is produced at %s without calling the wrapped AutoCommit method: on that path the C API skips what the Rust API does (e.g. the implicit commit of the open transaction)" % bad[0])
+    ctx.floor("extern \"C\" wrappers of &mut AutoCommit methods", n_wr, 40)
